@@ -8,6 +8,21 @@ Core-only (linked into `drive_c13`).
 -/
 namespace Arc.C13
 
+def decodeKind : Nat → StepKind
+  | 0 => .data
+  | 1 => .sqlite
+  | _ => .config
+
+def decodeMode : Nat → StepMode
+  | 0 => .failNow
+  | 1 => .assign
+  | 2 => .accumulate
+  | _ => .ignore
+
+/-- `(kind, mode)`; kind 9 = the `if err != nil {fail}` check on the shared variable -/
+def decodeInstr (x : Nat × Nat) : Instr :=
+  if x.1 == 9 then .check else .step (decodeKind x.1) (decodeMode x.2)
+
 def decodeErr : Nat → ErrPolicy
   | 0 => .continueSilently
   | 1 => .skipCount
@@ -23,18 +38,28 @@ def current : Policy :=
     ratioNum := Arc.Generated.C13.ratioNum
     ratioDen := Arc.Generated.C13.ratioDen
     ratioChecked := Arc.Generated.C13.ratioChecked
-    manifestSkipped := Arc.Generated.C13.manifestSkippedBeforeMarshal }
+    manifestSkipped := Arc.Generated.C13.manifestSkippedBeforeMarshal
+    restoreProg := Arc.Generated.C13.restoreProgram.map decodeInstr }
+
+/-- `RestoreBackup` as found: every step fails the restore at once. -/
+def failNowProg : List Instr :=
+  [.step .data .failNow, .step .sqlite .failNow, .step .config .failNow]
 
 /-- the policy of the tree the finding was made on. -/
 def asFound : Policy :=
   { backupReadErr := .skipCount, backupWriteErr := .abort, restoreFileErr := .continueSilently,
     backupKeepsPart := false, restoreKeepsPart := true, ratioNum := 1, ratioDen := 10,
-    ratioChecked := true, manifestSkipped := true }
+    ratioChecked := true, manifestSkipped := true, restoreProg := failNowProg }
 
 /-- repair A: `restoreDataFiles` returns the first per-file error. -/
 def repairedAbort : Policy := { asFound with restoreFileErr := .abort }
 
 /-- repair B: `restoreDataFiles` counts failed files, keeps going, and returns an error at the end. -/
 def repairedCount : Policy := { asFound with restoreFileErr := .skipCount }
+
+/-- a known-bad step program (seeded mutant C13-2): the data error is carried in the shared `err`,
+the SQLite step assigns the same variable, the check comes after it. -/
+def maskedProg : List Instr :=
+  [.step .data .assign, .step .sqlite .assign, .check, .step .config .failNow]
 
 end Arc.C13
